@@ -172,7 +172,8 @@ def load_known():
 def matches(entry, prop, fail, last, hist) -> bool:
     if entry.get("status") != "known":
         return False
-    if entry["property"] != prop:
+    props = entry["property"] if isinstance(entry["property"], list) else [entry["property"]]
+    if prop not in props:
         return False
     mt = entry["match"]
     if "clause" in mt and fail["clause"] not in (mt["clause"] if isinstance(mt["clause"], list) else [mt["clause"]]):
@@ -187,6 +188,9 @@ def matches(entry, prop, fail, last, hist) -> bool:
             return False
     for need in mt.get("any", []):
         if need not in allt:
+            return False
+    for group in mt.get("oneof", []):
+        if not any(x in allt for x in group):
             return False
     for forbid in mt.get("not", []):
         if forbid in allt:
